@@ -129,6 +129,28 @@ def _iter_sentinel_loop(st: ast.stmt) -> Optional[List[ast.stmt]]:
     return [loop]
 
 
+def _local_def_as_lambda(st: ast.stmt) -> Optional[List[ast.stmt]]:
+    """a nested `def f(a, b): return EXPR` (plain parameters, no decorators) is `f = lambda a, b: EXPR`"""
+    if not (isinstance(st, ast.FunctionDef) and not st.decorator_list):
+        return None
+    body = list(st.body)
+    if body and isinstance(body[0], ast.Expr) and isinstance(body[0].value, ast.Constant) and isinstance(body[0].value.value, str):
+        body = body[1:]
+    if len(body) != 1 or not isinstance(body[0], ast.Return) or body[0].value is None:
+        return None
+    if any(isinstance(n, (ast.Yield, ast.YieldFrom, ast.Await, ast.NamedExpr)) for n in ast.walk(body[0].value)):
+        return None
+    a = st.args
+    if a.vararg or a.kwarg or a.kwonlyargs:
+        return None
+    args = ast.arguments(posonlyargs=[ast.arg(x.arg) for x in a.posonlyargs], args=[ast.arg(x.arg) for x in a.args], vararg=None, kwonlyargs=[], kw_defaults=[],
+                         kwarg=None, defaults=[copy.deepcopy(d) for d in a.defaults])
+    lam = ast.Lambda(args, copy.deepcopy(body[0].value))
+    out = ast.copy_location(ast.Assign([ast.Name(st.name, ast.Store())], lam), st)
+    ast.fix_missing_locations(out)
+    return [out]
+
+
 class Expander:
     def __init__(self, mod):
         self.mod = mod
@@ -438,6 +460,8 @@ class Expander:
                 rep = _iter_sentinel_loop(st)
             if rep is None:
                 rep = _dict_update_as_stores(st)
+            if rep is None and stack:
+                rep = _local_def_as_lambda(st)
             if rep is not None:
                 changed[0] = True
                 out.extend(rep)
@@ -486,6 +510,8 @@ class Expander:
             if isinstance(n, ast.Expr) and _dict_update_as_stores(n) is not None:
                 return True
             if isinstance(n, ast.For) and _iter_sentinel_loop(n) is not None:
+                return True
+            if n is not fn and isinstance(n, ast.FunctionDef) and _local_def_as_lambda(n) is not None:
                 return True
             if isinstance(n, ast.Call):
                 f = n.func
